@@ -65,6 +65,8 @@ type MinerJob struct {
 	JobID string
 	Block *block.Block
 	Seed  randomvirel.Seed
+	// the difficulty the target sent with this job was computed from
+	MinDiff uint128.Uint128
 }
 
 func (s *Server) StartStratum(ip string, port uint16) error {
@@ -149,9 +151,10 @@ func (s *Server) SendJob(bl *block.Block, diff uint128.Uint128) {
 					c.Jobs = c.Jobs[1:]
 				}
 				c.Jobs = append(c.Jobs, &MinerJob{
-					JobID: jobid,
-					Block: &jobBl,
-					Seed:  seed,
+					JobID:   jobid,
+					Block:   &jobBl,
+					Seed:    seed,
+					MinDiff: diff,
 				})
 
 				Log.Debug("sending job to stratum connection", c.Conn.RemoteAddr())
